@@ -1,8 +1,8 @@
 package engines
 
 import (
-	"bngvet/internal/lin"
 	"bngvet/internal/bounds"
+	"bngvet/internal/lin"
 	"fmt"
 	"go/token"
 	"go/types"
